@@ -49,7 +49,7 @@ func init() {
 			"limb-structured 4-tuples, receiver aliased with the argument, nil arguments, PRNG cases. Oracle: math/big mod n (ModInverse, Exp); the stored limbs of the result must be < n and the argument's stored limbs bit-identical afterwards. " +
 			"" +
 			"History: (decoy) the same operation first runs on another object of equal value whose result is then changed in place; (chain) 12-step sequences of operations on one receiver, judged after every step, with arguments drawn from a small pool so that values and objects recur. " +
-			"non-trivial = at least one operand not in {0,1}; distinct by the whole case. Plus concurrent batches: 8 goroutines run the operations simultaneously on objects they own, each result judged against the oracle.",
+			"Operands and receivers also reach their values through every scalar move of mon/move.go (API-built starts, self-aliasing, argument of other / of panicking calls, havoc after rejected decodes). non-trivial = at least one operand not in {0,1}; distinct by the whole case. Plus concurrent batches: 8 goroutines run the operations simultaneously on objects they own, each result judged against the oracle.",
 		NewCase:  func() any { return &c06Case{} },
 		Generate: c06Generate,
 		Run:      c06Run,
